@@ -6,23 +6,25 @@ TIER=${1:-quick}
 rm -f /tmp/seedall.*.txt
 i=0
 for d in seeded/*/; do
-  n=$(basename $d); id=$(python3 -c "import json;print(json.load(open('$d/meta.json'))['property_id'])")
-  ( TIER=$TIER tools/seedcheck.sh $d $id > /tmp/seedall.$n.txt 2>&1 ) &
+  n=$(basename $d); ids=$(python3 -c "
+import json; m=json.load(open('$d/meta.json')); print(' '.join([m['property_id']]+[x for x in m.get('detected_by',[]) if x!=m['property_id']]))")
+  ( TIER=$TIER tools/seedcheck.sh $d $ids > /tmp/seedall.$n.txt 2>&1 ) &
   i=$((i+1)); if [ $((i % 12)) -eq 0 ]; then wait; fi
 done
 wait
 {
   echo "# Seeded changes vs. checks ($TIER tier, $(date -u +%F))"
   echo
-  echo "| seed | property | confirmed (demo ok / suite ok / demo fails) | check exit | first violation key |"
-  echo "|---|---|---|---|---|"
+  echo "| seed | property | confirmed (demo ok / suite ok / demo fails) | own check exit | first violation key | other checks that report it |"
+  echo "|---|---|---|---|---|---|"
   for d in seeded/*/; do
     n=$(basename $d); id=$(python3 -c "import json;print(json.load(open('$d/meta.json'))['property_id'])")
     conf=$(grep -c "^seed confirmed" /tmp/seedall.$n.txt)
     line=$(grep "^CHECK" /tmp/seedall.$n.txt | head -1)
     ex=$(echo "$line" | sed -n 's/.*exit=\([0-9]*\).*/\1/p'); key=$(echo "$line" | sed -n 's/.*key=\([^ ]*\).*/\1/p')
-    echo "| $n | $id | $([ "$conf" = 1 ] && echo yes || echo NO) | ${ex:-?} | ${key:--} |"
+    others=$(grep "^CHECK" /tmp/seedall.$n.txt | tail -n +2 | sed -n 's/^CHECK \([A-Z0-9]*\) exit=1.*/\1/p' | tr '\n' ' ')
+    echo "| $n | $id | $([ "$conf" = 1 ] && echo yes || echo NO) | ${ex:-?} | ${key:--} | ${others:--} |"
   done
 } > seeded/MATRIX.md
 rm -f /tmp/seedall.*.txt
-grep -c "| 1 |" seeded/MATRIX.md; grep -v "| 1 |" seeded/MATRIX.md | tail -n +5
+echo "reported by own check: $(grep -c "| 1 |" seeded/MATRIX.md)"; grep -v "| 1 |" seeded/MATRIX.md | tail -n +5
